@@ -7,7 +7,8 @@
 //   unjson <hex of the JSON text>
 //   cmp <u1> <l1> <u2> <l2>
 // observables:
-//   views     -> <String hex> <MarshalJSON hex> <Bytes() hex> <Bytes(BE) hex> <big:upper,lower> <le:upper,lower> <json:upper,lower|err>
+//   views     -> <String hex> <MarshalJSON hex> <Bytes() hex> <Bytes(BE) hex> <big:upper,lower> <le:upper,lower> <json:upper,lower|err> <be:upper,lower>
+//                (be = NewUint128(u.Bytes(BigEndian), BigEndian), le = NewUint128(u.Bytes()))
 //   frombytes -> <upper>,<lower>
 //   frombig   -> <upper>,<lower>
 //   unjson    -> <upper>,<lower> | err
@@ -74,6 +75,26 @@ func c13Gen(r *vu.RNG, n int, emit func(string)) {
 	for _, s := range []string{"", "-", "+", "0", "007", "-5", "+5", "+-5", "12a", "1 2", "1_000", " 1", "0x10",
 		"340282366920938463463374607431768211455", "340282366920938463463374607431768211456"} {
 		emit("unjson " + vu.Hex([]byte(s)))
+	}
+	// the byte-slice constructor at every length 0..18, both orders: a single non-zero byte at
+	// either end (tells the halves and the padding side apart), and an ascending pattern
+	for l := 0; l <= 18; l++ {
+		for _, o := range []string{"LE", "BE"} {
+			first, last, asc := make([]byte, l), make([]byte, l), make([]byte, l)
+			for j := range asc {
+				asc[j] = byte(j + 1)
+			}
+			if l > 0 {
+				first[0], last[l-1] = 1, 1
+			}
+			emit("frombytes " + o + " " + vu.Hex(first))
+			emit("frombytes " + o + " " + vu.Hex(last))
+			emit("frombytes " + o + " " + vu.Hex(asc))
+		}
+	}
+	for _, s := range []string{"0", "1", "ff", "100", "ffffffffffffffff", "10000000000000000",
+		"ffffffffffffffffffffffffffffffff", "100000000000000000000000000000000", "1" + strings.Repeat("0", 40)} {
+		emit("frombig " + s)
 	}
 	for i := 0; i < n; i++ {
 		switch r.Intn(10) {
@@ -147,6 +168,10 @@ func c13Run(in string) string {
 		if err != nil {
 			return "err:fromle"
 		}
+		fromBE, err := NewUint128(u.Bytes(binary.BigEndian), binary.BigEndian)
+		if err != nil {
+			return "err:frombe"
+		}
 		// decode into a destination that already holds another value: UnmarshalJSON must
 		// overwrite both halves
 		back := Uint128{Upper: 0xdeadbeefcafe0001, Lower: 0x0123456789abcdef}
@@ -154,8 +179,8 @@ func c13Run(in string) string {
 		if err := json.Unmarshal(js, &back); err == nil {
 			jr = c13pair(&back)
 		}
-		return fmt.Sprintf("%s %s %s %s %s %s %s", vu.Hex([]byte(u.String())), vu.Hex(js),
-			vu.Hex(u.Bytes()), vu.Hex(u.Bytes(binary.BigEndian)), c13pair(fromBig), c13pair(fromLE), jr)
+		return fmt.Sprintf("%s %s %s %s %s %s %s %s", vu.Hex([]byte(u.String())), vu.Hex(js),
+			vu.Hex(u.Bytes()), vu.Hex(u.Bytes(binary.BigEndian)), c13pair(fromBig), c13pair(fromLE), jr, c13pair(fromBE))
 	case "frombytes":
 		var o binary.ByteOrder = binary.LittleEndian
 		if f[1] == "BE" {
